@@ -235,6 +235,161 @@ Qed.
 Lemma KC_close : forall sent k, KC sent k -> KC sent (close_cons fixed k).
 Proof. intros sent k H. eapply KC_gh2; [apply gh2_close_cons|exact H]. Qed.
 
+(* ---------- the seam: nothing is dropped before the next key start ---------- *)
+
+(* the key-free prefix of a packet list: the live packets that still belong to the GOP the joiner
+   was replayed *)
+Fixpoint nk (w : list pkt) : list pkt :=
+  match w with [] => [] | p :: w' => if p_key p then [] else p :: nk w' end.
+
+Lemma nk_length_le : forall w, (length (nk w) <= length w)%nat.
+Proof. induction w as [|p w IH]; cbn; [lia|]. destruct (p_key p); cbn; lia. Qed.
+
+Lemma nk_full_or_short : forall w, nk w = w \/ (length (nk w) < length w)%nat.
+Proof.
+  induction w as [|p w [IH|IH]]; [left; reflexivity| |]; cbn; destruct (p_key p); cbn.
+  - right; lia.
+  - left; rewrite IH; reflexivity.
+  - right; lia.
+  - right; lia.
+Qed.
+
+Lemma nk_app_full : forall w p, nk w = w -> nk (w ++ [p]) = if p_key p then w else w ++ [p].
+Proof.
+  induction w as [|a w IH]; intros p H; cbn.
+  - destruct (p_key p); reflexivity.
+  - cbn in H. destruct (p_key a); [discriminate|]. injection H as H. rewrite (IH p H).
+    destruct (p_key p); reflexivity.
+Qed.
+
+Lemma nk_app_short : forall w p, (length (nk w) < length w)%nat -> nk (w ++ [p]) = nk w.
+Proof.
+  induction w as [|a w IH]; intros p H; cbn in *; [lia|].
+  destruct (p_key a); [reflexivity|]. cbn in H. rewrite IH by lia. reflexivity.
+Qed.
+
+Lemma nk_prefix : forall w, firstn (length (nk w)) w = nk w.
+Proof. induction w as [|p w IH]; cbn; [reflexivity|]. destruct (p_key p); cbn; [reflexivity|]. rewrite IH. reflexivity. Qed.
+
+Lemma jselect_true : forall (w : list pkt), jselect (map (fun _ => true) w) w = w.
+Proof. induction w as [|p w IH]; cbn; [reflexivity|]. rewrite IH. reflexivity. Qed.
+
+Definition gh3 (k : cons) := (c_disc k, c_keep k, c_regat k, c_unregat k).
+
+Lemma gh3_wake : forall k, gh3 (wake k) = gh3 k.
+Proof. intros k. unfold wake. destruct (c_pc k); try reflexivity. destruct (c_q k); reflexivity. Qed.
+
+Lemma gh3_push : forall k x, gh3 (push k x) = gh3 k.
+Proof. intros. unfold push. rewrite gh3_wake. reflexivity. Qed.
+
+Lemma gh3_close_cons : forall k, gh3 (close_cons fixed k) = gh3 k.
+Proof.
+  intros. unfold close_cons. destruct (c_closed k); [reflexivity|].
+  cbn [v_push fixed]. rewrite gh3_push. reflexivity.
+Qed.
+
+(* consumption.send: the discarding decision *)
+Definition send_d (maxq : nat) (k : cons) (p : pkt) : bool :=
+  let n := length (c_q k) in
+  if p_key p
+  then (if c_disc k && (n <? maxq)%nat then false
+        else if negb (c_disc k) && (maxq <? n)%nat then true else c_disc k)
+  else c_disc k.
+
+Lemma gh3_send : forall maxq k p,
+  gh3 (send maxq k p) = (send_d maxq k p, c_keep k ++ [negb (send_d maxq k p)], c_regat k, c_unregat k).
+Proof.
+  intros. unfold send. cbv zeta. fold (send_d maxq k p).
+  destruct (send_d maxq k p); [reflexivity|]. rewrite gh3_push. reflexivity.
+Qed.
+
+Lemma send_d_nokey : forall maxq k p, p_key p = false -> send_d maxq k p = c_disc k.
+Proof. intros maxq k p H. unfold send_d. rewrite H. reflexivity. Qed.
+
+(* one consumer: up to the first key start broadcast while it is registered every packet is kept,
+   and while there has been none it is not discarding — whatever its queue length and the limit *)
+Definition DC (sent : list pkt) (k : cons) : Prop :=
+  match c_regat k with
+  | None => c_disc k = false
+  | Some r =>
+      let w := jwindow sent r (c_unregat k) in
+      firstn (length (nk w)) (c_keep k) = map (fun _ => true) (nk w) /\ (nk w = w -> c_disc k = false)
+  end.
+
+Lemma DC_gh3 : forall sent k k', gh3 k' = gh3 k -> DC sent k -> DC sent k'.
+Proof.
+  intros sent k k' H. unfold gh3 in H. injection H as E1 E2 E3 E4.
+  unfold DC. rewrite E1, E2, E3, E4. auto.
+Qed.
+
+Lemma DC_unreg : forall sent k,
+  c_reg k = true -> KC sent k -> DC sent k -> DC sent (set_reg k false (length sent)).
+Proof.
+  intros sent k Hr. unfold KC, DC. cbn.
+  destruct (c_regat k) as [r|]; [|intros (H & _); congruence].
+  destruct (c_unregat k) as [u|]; [intros (_ & _ & _ & H & _); congruence|].
+  intros _. unfold jwindow. rewrite firstn_all. auto.
+Qed.
+
+Lemma DC_reg : forall sent k,
+  c_regat k = None -> KC sent k -> DC sent k -> DC sent (set_reg k true (length sent)).
+Proof.
+  intros sent k Hn. unfold KC, DC. rewrite Hn. cbn. intros (_ & _ & H3 & _) Hd.
+  rewrite H3. unfold jwindow. rewrite skipn_all. cbn. auto.
+Qed.
+
+Lemma DC_send : forall maxq sent k p,
+  c_reg k = true -> KC sent k -> DC sent k -> DC (sent ++ [p]) (send maxq k p).
+Proof.
+  intros maxq sent k p Hr. pose proof (gh3_send maxq k p) as G. unfold gh3 in G.
+  injection G as E1 E2 E3 E4. unfold KC, DC. rewrite E1, E2, E3, E4.
+  destruct (c_regat k) as [r|]; [|intros (H & _); congruence].
+  destruct (c_unregat k) as [u|]; [intros (_ & _ & _ & H & _); congruence|].
+  intros (H1 & _ & H3 & _) (D1 & D2). unfold jwindow in *. cbv zeta.
+  rewrite skipn_app. replace (r - length sent)%nat with O by lia. cbn [skipn].
+  set (w := skipn r sent) in *.
+  destruct (nk_full_or_short w) as [F|S].
+  - specialize (D2 F). rewrite (nk_app_full w p F). rewrite F in D1.
+    assert (Ek : c_keep k = map (fun _ => true) w).
+    { rewrite <- D1. rewrite <- H3. symmetry. apply firstn_all. }
+    destruct (p_key p) eqn:Kp.
+    + split.
+      * rewrite firstn_app. replace (length w - length (c_keep k))%nat with O by lia.
+        cbn. rewrite app_nil_r. rewrite <- H3, firstn_all. exact Ek.
+      * intros E. exfalso. apply (f_equal (@length pkt)) in E. rewrite app_length in E. cbn in E. lia.
+    + rewrite (send_d_nokey maxq k p Kp), D2. cbn [negb]. split; [|reflexivity].
+      rewrite app_length. cbn [length]. rewrite firstn_all2 by (rewrite app_length; cbn; lia).
+      rewrite Ek, map_app. reflexivity.
+  - rewrite (nk_app_short w p S). split.
+    + rewrite firstn_app. replace (length (nk w) - length (c_keep k))%nat with O by lia.
+      cbn. rewrite app_nil_r. exact D1.
+    + intros E. exfalso. apply (f_equal (@length pkt)) in E. rewrite app_length in E. cbn in E. lia.
+Qed.
+
+Lemma DC_grow : forall sent k p, c_reg k = false -> KC sent k -> DC sent k -> DC (sent ++ [p]) k.
+Proof.
+  intros sent k p Hr. unfold KC, DC.
+  destruct (c_regat k) as [r|]; [|auto].
+  destruct (c_unregat k) as [u|]; [|intros (_ & _ & _ & H); congruence].
+  intros (_ & _ & _ & _ & H5). unfold jwindow. rewrite firstn_app_le by lia. auto.
+Qed.
+
+Lemma DC_exit_path : forall sent k, KC sent k -> DC sent k -> DC sent (exit_path fixed k (length sent)).
+Proof.
+  intros sent k Hk H. unfold exit_path. cbn [v_atomic fixed]. destruct (c_reg k) eqn:Hr.
+  - eapply DC_gh3; [|apply DC_unreg; eassumption]. reflexivity.
+  - eapply DC_gh3; [|exact H]. reflexivity.
+Qed.
+
+Lemma DC_loop_test : forall sent k, KC sent k -> DC sent k -> DC sent (loop_test fixed k (length sent)).
+Proof.
+  intros sent k Hk H. unfold loop_test. destruct (c_closed k); [apply DC_exit_path; assumption|].
+  eapply DC_gh3; [|exact H]. reflexivity.
+Qed.
+
+Lemma DC_close : forall sent k, DC sent k -> DC sent (close_cons fixed k).
+Proof. intros sent k H. eapply DC_gh3; [apply gh3_close_cons|exact H]. Qed.
+
 Lemma creg_gh2 : forall k k', gh2 k' = gh2 k -> c_reg k' = c_reg k.
 Proof. intros k k' H. unfold gh2 in H. congruence. Qed.
 
@@ -841,6 +996,159 @@ Proof.
   destruct Hc as (_ & H3 & H4 & _). auto.
 Qed.
 
+(* ---------- the seam between the replayed part and the live part ---------- *)
+
+Definition DInv (s : ST) : Prop := forall c, DC (s_sent s) (s_cs s c).
+
+Lemma DInv_upd : forall (s : ST) c k',
+  DInv s -> DC (s_sent s) k' -> forall c', DC (s_sent s) (upd (s_cs s) c k' c').
+Proof.
+  intros s c k' Hd H c'. destruct (Nat.eq_dec c c') as [<-|Hn];
+    [rewrite upd_same; exact H|rewrite upd_other by exact Hn; apply Hd].
+Qed.
+
+Lemma after_acquire_D : forall (s : ST) h q, DInv s -> DInv (after_acq s h q).
+Proof.
+  intros s h q Hd. destruct h as [|c]; cbn [after_acquire].
+  - destruct (s_todo s); exact Hd.
+  - intros c'. cbn. apply DInv_upd; [exact Hd|]. eapply DC_gh3; [|apply (Hd c)]. reflexivity.
+Qed.
+
+Lemma release_D : forall s : ST, DInv s -> DInv (releaseF s).
+Proof.
+  intros s Hd. unfold release. cbn [v_lock fixed].
+  destruct (s_lockq s); [exact Hd|apply after_acquire_D, Hd].
+Qed.
+
+Lemma acquire_D : forall (s : ST) h, DInv s -> DInv (acquireF s h).
+Proof.
+  intros s h Hd. unfold acquire. cbn [v_lock fixed].
+  destruct (s_lock s); [destruct h; exact Hd|apply after_acquire_D, Hd].
+Qed.
+
+Lemma step_pub_D : forall s s' : ST,
+  KInv s -> DInv s -> step_pub fixed maxq cache_t cache_add cache_snap ncons s = Some s' -> DInv s'.
+Proof.
+  intros s s' Hk Hd. unfold step_pub.
+  destruct (s_pp s); destruct (s_todo s) as [|p rest]; try discriminate.
+  - destruct (s_ok s); intros H; injection H as <-; exact Hd.
+  - intros H; injection H as <-. apply acquire_D, Hd.
+  - intros H; injection H as <-. apply release_D. intros c. cbn. rewrite send_all_at.
+    destruct (Hk c) as [H1 H2]. destruct (c_reg (s_cs s c)) eqn:Hr.
+    + rewrite (proj2 (Nat.ltb_lt c ncons) (H2 eq_refl)). cbn [andb]. apply DC_send; auto.
+    + rewrite andb_false_r. apply DC_grow; auto.
+Qed.
+
+Lemma step_att_D : forall (s s' : ST) c,
+  JInv s -> KInv s -> DInv s ->
+  step_att fixed cache_t cache_add cache_snap s c = Some s' -> DInv s'.
+Proof.
+  intros s s' c Hi Hk Hd. unfold step_att.
+  destruct (s_att s c) eqn:Ea; try discriminate.
+  - intros H; injection H as <-. apply acquire_D, Hd.
+  - intros H; injection H as <-. apply release_D. intros c'. cbn. apply DInv_upd; [exact Hd|].
+    apply DC_reg; [apply (j_snap s (j_core s Hi) c Ea)|apply Hk|apply Hd].
+  - intros H.
+    assert (Hk1 : forall k1 cnt,
+      (if v_recheck fixed && negb (s_ok s) && c_reg (s_cs s c)
+       then (close_cons fixed (set_reg (s_cs s c) false (length (s_sent s))), (s_count s - 1)%Z)
+       else (s_cs s c, s_count s)) = (k1, cnt) ->
+      KC (s_sent s) k1 /\ DC (s_sent s) k1).
+    { intros k1 cnt E. destruct (c_reg (s_cs s c)) eqn:Hr.
+      - destruct (v_recheck fixed && negb (s_ok s)); cbn [andb] in E; injection E as <- <-.
+        + split; [apply KC_close, KC_unreg; [exact Hr|apply Hk]|].
+          apply DC_close, DC_unreg; [exact Hr|apply Hk|apply Hd].
+        + split; [apply Hk|apply Hd].
+      - rewrite andb_false_r in E. injection E as <- <-. split; [apply Hk|apply Hd]. }
+    destruct (if v_recheck fixed && negb (s_ok s) && c_reg (s_cs s c)
+       then (close_cons fixed (set_reg (s_cs s c) false (length (s_sent s))), (s_count s - 1)%Z)
+       else (s_cs s c, s_count s)) as [k1 cnt].
+    destruct (Hk1 k1 cnt eq_refl) as [Hc1 Hd1]. injection H as <-.
+    intros c'. cbn. apply DInv_upd; [exact Hd|]. apply DC_loop_test; assumption.
+Qed.
+
+Lemma step_stop_D : forall (s s' : ST) c,
+  KInv s -> DInv s -> step_stop fixed cache_t s c = Some s' -> DInv s'.
+Proof.
+  intros s s' c Hk Hd. unfold step_stop. cbn [v_atomic fixed].
+  destruct (s_stp s c); try discriminate.
+  - destruct (c_reg (s_cs s c)) eqn:Hr; intros H; injection H as <-; [|exact Hd].
+    intros c'. cbn. apply DInv_upd; [exact Hd|]. apply DC_unreg; [exact Hr|apply Hk|apply Hd].
+  - intros H; injection H as <-. intros c'. cbn. apply DInv_upd; [exact Hd|]. apply DC_close, Hd.
+Qed.
+
+Lemma step_cons_D : forall (s s' : ST) c,
+  KInv s -> DInv s -> step_cons fixed cache_t panic_at s c = Some s' -> DInv s'.
+Proof.
+  intros s s' c Hk Hd. unfold step_cons. cbn [v_atomic fixed].
+  destruct (Hk c) as [Hc _]. pose proof (Hd c) as Hdc.
+  destruct (c_pc (s_cs s c)) as [| |[p|]| | |]; try discriminate.
+  - destruct (c_q (s_cs s c)); intros H; injection H as <-; intros c'; cbn; (apply DInv_upd; [exact Hd|]);
+      (eapply DC_gh3; [|exact Hdc]); reflexivity.
+  - destruct (Nat.eqb _ _); intros H; injection H as <-; intros c'; cbn; (apply DInv_upd; [exact Hd|]).
+    + apply DC_exit_path; [eapply KC_gh2; [|exact Hc]|eapply DC_gh3; [|exact Hdc]]; reflexivity.
+    + apply DC_loop_test; [eapply KC_gh2; [|exact Hc]|eapply DC_gh3; [|exact Hdc]]; reflexivity.
+  - intros H; injection H as <-. intros c'; cbn. apply DInv_upd; [exact Hd|]. apply DC_loop_test; assumption.
+  - intros H; injection H as <-. intros c'; cbn. apply DInv_upd; [exact Hd|].
+    eapply DC_gh3; [|apply DC_close, Hdc]. reflexivity.
+Qed.
+
+Lemma step_D : forall (s s' : ST) t,
+  t <> TClose -> JInv s -> KInv s -> DInv s -> stepF s t = Some s' -> DInv s'.
+Proof.
+  intros s s' t Ht Hi Hk Hd. destruct t as [| |c|c|c]; cbn [step].
+  - apply step_pub_D; assumption.
+  - contradiction.
+  - destruct (c <? ncons)%nat; [apply step_att_D; assumption|discriminate].
+  - destruct (c <? ncons)%nat; [|discriminate].
+    destruct (s_att s c); try discriminate. apply step_stop_D; assumption.
+  - destruct (c <? ncons)%nat; [apply step_cons_D; assumption|discriminate].
+Qed.
+
+Lemma run_D : forall sched (s : ST),
+  Forall (fun t => t <> TClose) sched -> JInv s -> KInv s -> DInv s ->
+  JInv (runF sched s) /\ KInv (runF sched s) /\ DInv (runF sched s).
+Proof.
+  induction sched as [|t sched IH]; intros s Hs Hi Hk Hd; [auto|].
+  inversion Hs; subst. cbn [run].
+  destruct (stepF s t) eqn:E; [|apply IH; assumption].
+  apply IH; [assumption|eapply step_inv; eauto|eapply step_K; eauto|eapply step_D; eauto].
+Qed.
+
+Lemma init_D : forall pkts stoppers, DInv (initF pkts stoppers).
+Proof. intros pkts stoppers c. cbn. reflexivity. Qed.
+
+(* THE SEAM (abstract cache, ANY queue limit maxq): of the packets broadcast while the consumer is
+   registered, the ones before the next key start ([nk]: the rest of the GOP it was replayed) are
+   all pushed, right after the replayed part, however long the replay is compared to the limit and
+   whether or not the consumer drains its queue; and until such a key start it is not discarding *)
+Theorem join_seam : forall pkts stoppers sched,
+  Forall (fun t => t <> TClose) sched ->
+  let s := runF sched (initF pkts stoppers) in
+  forall c r, c_regat (s_cs s c) = Some r ->
+    let k := s_cs s c in
+    let w := jwindow (s_sent s) r (c_unregat k) in
+    let n := length (nk w) in
+    c_pushed k = c_prefill k ++ nk w ++ jselect (skipn n (c_keep k)) (skipn n w) /\
+    (nk w = w -> c_disc k = false /\ c_pushed k = c_prefill k ++ w).
+Proof.
+  intros pkts stoppers sched Hs s c r H k w n.
+  destruct (run_D sched (initF pkts stoppers) Hs (init_inv _ _) (init_K _ _) (init_D _ _)) as (Hi & Hk & Hd).
+  fold s in Hi, Hk, Hd.
+  destruct (Hk c) as [Hc _]. unfold KC in Hc. rewrite H in Hc. destruct Hc as (_ & H3 & H4 & _).
+  pose proof (Hd c) as Hdc. unfold DC in Hdc. rewrite H in Hdc. cbv zeta in Hdc. fold k in H3, H4, Hdc.
+  fold w in H3, H4, Hdc. destruct Hdc as [D1 D2]. fold n in D1.
+  assert (Hn : (n <= length w)%nat) by apply nk_length_le.
+  assert (E : c_pushed k = c_prefill k ++ nk w ++ jselect (skipn n (c_keep k)) (skipn n w)).
+  { rewrite H3. f_equal.
+    rewrite <- (firstn_skipn n (c_keep k)) at 1. rewrite <- (firstn_skipn n w) at 1.
+    rewrite jselect_app by (rewrite !firstn_length; lia).
+    unfold n at 2. rewrite nk_prefix. rewrite D1, jselect_true. reflexivity. }
+  split; [exact E|]. intros F. split; [apply D2, F|].
+  rewrite E. unfold n. rewrite F, !skipn_all. cbn. rewrite ?app_nil_r.
+  destruct (skipn (length w) (c_keep k)); cbn; rewrite app_nil_r; reflexivity.
+Qed.
+
 (* ---------- on a live stream the sent log is a prefix of the published list ---------- *)
 
 Definition pk (s : ST) := (s_ok s, s_sent s, s_todo s).
@@ -1033,3 +1341,28 @@ Example join_repeat_fixed :
     [ {| p_id := 1; p_kind := 3 |}; {| p_id := 1; p_kind := 3 |} ] /\
   c_out (s_cs (lrun (d1_repeat_long fixed)) 0) = [ {| p_id := 1; p_kind := 3 |} ].
 Proof. vm_compute. split; reflexivity. Qed.
+
+(* ---------- the seam, for the RTP caches: any replay length, any queue limit ---------- *)
+
+(* [maxq] is universally quantified and occurs in no hypothesis: a joiner whose replay is longer
+   than the queue limit is still handed, right after the replayed part, every live packet up to the
+   next key start; if no key start has been broadcast since it registered it is not discarding and
+   what was pushed to it is exactly  replay ++ live packets from the registration point on *)
+Theorem join_contiguous_any_replay_length_rcache :
+  forall maxq gopon ncons panic_at pkts stoppers sched,
+  Forall (fun t => t <> TClose) sched ->
+  let s := rrun maxq gopon ncons panic_at sched pkts stoppers in
+  forall c r, c_regat (s_cs s c) = Some r ->
+    let k := s_cs s c in
+    let w := jwindow (s_sent s) r (c_unregat k) in
+    let n := length (nk w) in
+    c_pushed k = spec_snap gopon (firstn r (s_sent s)) ++ nk w ++ jselect (skipn n (c_keep k)) (skipn n w) /\
+    (nk w = w -> c_disc k = false /\ c_pushed k = spec_snap gopon (firstn r (s_sent s)) ++ w).
+Proof.
+  intros maxq gopon ncons panic_at pkts stoppers sched Hs s c r H k w n.
+  destruct (join_seam maxq rcache (rc_empty gopon) rc_add rc_snap ncons panic_at
+              pkts stoppers sched Hs c r H) as [E1 E2].
+  destruct (join_contiguous_rcache maxq gopon ncons panic_at pkts stoppers sched Hs c r H) as (_ & P & _).
+  fold s in E1, E2, P. fold k in E1, E2, P. fold w in E1, E2. fold n in E1.
+  rewrite <- P. split; [exact E1|exact E2].
+Qed.
